@@ -117,6 +117,13 @@ def driver(ctx, R="R-C01-driver"):
         nr = cfg.node(rets[0])
         ctx.check(nf in cfg.dominators().get(nr, ()), R, f, rets[0], "every normal return passes through finalize()")
         v = rets[0].value
+        if isinstance(v, ast.Name):
+            # `out = np.concatenate(pieces); ...; return out`: the returned name's last binding in the function body
+            binds = [st for st in f.node.body if isinstance(st, ast.Assign) and len(st.targets) == 1 and astq.is_name(st.targets[0], v.id) and st.lineno < rets[0].lineno]
+            later = [x for st in f.node.body if binds and st.lineno > binds[-1].lineno and st is not rets[0] for x in ast.walk(st)
+                     if isinstance(x, ast.Name) and x.id == v.id and isinstance(x.ctx, ast.Store)]
+            if binds and not later:
+                v = binds[-1].value
         ok = isinstance(v, ast.Call) and prog.qualify(f.module, v.func, f) == "numpy.concatenate" and len(v.args) == 1 and isinstance(v.args[0], ast.Name)
         ctx.check(ok, R, f, rets[0], "the pieces are concatenated", "return value is %s" % astq.text(v))
         if ok:
